@@ -200,14 +200,6 @@ func c12Main(r *run.Runner) {
 		maxBytes = 4096
 	}
 	e := enum.Strings{Alpha: c09Alpha, MaxLen: n, Split: 2}
-	r.Sweep("bytes36", e.Items(), func(w *run.Worker, item int64) {
-		e.Do(item, func(buf []byte, _ []int) bool {
-			totalOne(w, string(buf))
-			return !w.Stopped()
-		})
-	})
-	b1 := tokenSweeps(r, 3, 5, totalOne)
-	b2 := corruptionSweep(r, totalOne)
 	type fc struct {
 		fam int
 		n   int
@@ -283,6 +275,14 @@ func c12Main(r *run.Runner) {
 	})
 	r.MaxWorkers = 0
 	r.HangLimit.Store(0)
+	r.Sweep("bytes36", e.Items(), func(w *run.Worker, item int64) {
+		e.Do(item, func(buf []byte, _ []int) bool {
+			totalOne(w, string(buf))
+			return !w.Stopped()
+		})
+	})
+	b1 := tokenSweeps(r, 3, 4, totalOne)
+	b2 := corruptionSweep(r, totalOne)
 	r.Extra["slowest_family_case_seconds"] = slowest
 	fam := []string{}
 	for _, f := range c12Families {
